@@ -11,7 +11,7 @@ import (
 
 func init() {
 	suites["scanner"] = suite{
-		rule: "scripted next function (i-th call answers the i-th scripted page or error, past the end: error eof; requested cursors are recorded) driven through Scanner.Iter and Scanner.Iter2 with a consumer that breaks at every possible item index (0..total) and one that never breaks; scripts: exhaustive over up to 3 responses from {empty page, 1/2/3-element page, error} x cursor {0, non-zero}, then random scripts up to 8 responses with pages up to 7 elements, empty elements, cursor 2^64-1; each op is emitted as model line and as oracle line; non-trivial = script with at least two responses",
+		rule: "scripted next function (i-th call answers the i-th scripted page or error, past the end: error eof; requested cursors are recorded) driven through Scanner.Iter and Scanner.Iter2 with a consumer that breaks at every possible item index (0..total) and one that never breaks; scripts: exhaustive over up to 3 responses from {empty page, 1/2/3-element page, error} x cursor {0, non-zero}, then random scripts up to 8 responses with pages up to 7 elements, empty elements, cursor 2^64-1; each op is emitted as model line and as oracle line; `seq` ops re-iterate the SAME Scanner 2-3 times (Iter/Iter2 mixed, re-usable iter.Seq values) against a cursor-keyed page server after a complete iteration, after a consumer break at every item position and after a failed page: every iteration must start at cursor 0 and show what a fresh Scanner shows; non-trivial = script with at least two responses",
 		run:  runScanner,
 		replay: func(c *Ctx, lines []string) {
 			for _, l := range lines {
@@ -45,9 +45,107 @@ func parseScanResp(w string) scanResp {
 	return r
 }
 
+// scannerSeqOp: `seq <n> (<iter|iter2> <stop>){n} <resp>*` — n consecutive iterations over ONE Scanner.
+// The page server is keyed by the requested cursor: entry 0 answers cursor 0, entry i+1 answers the
+// cursor entry i returned; any other cursor is answered with the error eof.
+func scannerSeqOp(c *Ctx, line string) {
+	w := strings.Fields(line)
+	n, _ := strconv.Atoi(w[1])
+	type req struct {
+		op   string
+		stop int
+	}
+	reqs := make([]req, n)
+	for i := range reqs {
+		reqs[i] = req{w[2+2*i], -1}
+		if x := w[3+2*i]; x != "-" {
+			reqs[i].stop, _ = strconv.Atoi(x)
+		}
+	}
+	var script []scanResp
+	for _, x := range w[2+2*n:] {
+		script = append(script, parseScanResp(x))
+	}
+	keyed := map[uint64]int{}
+	dup := false
+	cur := uint64(0)
+	for i := 0; ; i++ {
+		if _, ok := keyed[cur]; ok {
+			dup = true
+			break
+		}
+		keyed[cur] = i // i == len(script): the request past the end (answered eof)
+		if i >= len(script) || script[i].err != "" || script[i].cursor == 0 {
+			break
+		}
+		cur = script[i].cursor
+	}
+	if dup {
+		c.Emit(line, "bad-op:dup-cursor", false)
+		return
+	}
+	var cursors []string
+	sc := rueidis.NewScanner(func(cursor uint64) (rueidis.ScanEntry, error) {
+		cursors = append(cursors, strconv.FormatUint(cursor, 10))
+		i, ok := keyed[cursor]
+		if !ok || i >= len(script) {
+			return rueidis.ScanEntry{}, errors.New("eof")
+		}
+		if script[i].err != "" {
+			return rueidis.ScanEntry{}, errors.New(script[i].err)
+		}
+		return rueidis.ScanEntry{Cursor: script[i].cursor, Elements: script[i].elems}, nil
+	})
+	seq1, seq2 := sc.Iter(), sc.Iter2() // the re-usable iterator values
+	var outs []string
+	for j, r := range reqs {
+		cursors = nil
+		var items []string
+		out := guard(func() string {
+			idx := 0
+			if r.op == "iter" {
+				for v := range seq1 {
+					items = append(items, v)
+					if idx == r.stop {
+						break
+					}
+					idx++
+				}
+			} else {
+				for k, v := range seq2 {
+					items = append(items, k+"+"+v)
+					if idx == r.stop {
+						break
+					}
+					idx++
+				}
+			}
+			e := "-"
+			if err := sc.Err(); err != nil {
+				e = err.Error()
+			}
+			return fmt.Sprintf("y=%d:%s c=%s err=%s", len(items), strings.Join(items, ","), strings.Join(cursors, ","), e)
+		})
+		if j > 0 && out != "panic" && (len(cursors) == 0 || cursors[0] != "0") {
+			first := "none"
+			if len(cursors) > 0 {
+				first = cursors[0]
+			}
+			c.Fail("scanner:second-iteration-not-from-cursor-0", line, fmt.Sprintf("iteration %d over the same Scanner started at cursor %s instead of 0 (%s)", j+1, first, out))
+		}
+		outs = append(outs, out)
+	}
+	c.Hit("seq:" + strconv.Itoa(n))
+	c.Emit(line, strings.Join(outs, " | "), len(script) >= 2)
+}
+
 func scannerOp(c *Ctx, line string) {
 	w := strings.Fields(line)
 	op := strings.TrimPrefix(w[0], "!")
+	if op == "seq" {
+		scannerSeqOp(c, line)
+		return
+	}
 	stop := -1
 	if w[1] != "-" {
 		stop, _ = strconv.Atoi(w[1])
@@ -194,5 +292,106 @@ func runScanner(c *Ctx) {
 			}
 		}
 		emit(script)
+	}
+	// re-iteration of the same Scanner: scripts with pairwise distinct cursors (cursor-keyed server)
+	seqEmit := func(script []string) {
+		total, totalPairs := 0, 0
+		for _, r := range script {
+			if strings.HasPrefix(r, "e:") {
+				break
+			}
+			if _, es, ok := strings.Cut(r, ":"); ok {
+				k := len(strings.Split(es, ","))
+				total += k
+				totalPairs += k / 2
+			}
+			if strings.HasPrefix(r, "p0:") || r == "p0" {
+				break
+			}
+		}
+		body := strings.Join(script, " ")
+		st := func(x int) string {
+			if x < 0 {
+				return "-"
+			}
+			return strconv.Itoa(x)
+		}
+		both := func(l string) {
+			l = strings.TrimSpace(l)
+			scannerOp(c, l)
+			scannerOp(c, "!"+l)
+		}
+		// first iteration: complete, or stopped at every item position; second: complete
+		for stop := -1; stop < total; stop++ {
+			second := []string{"iter", "iter2"}[c.Rng.IntN(2)]
+			both("seq 2 iter " + st(stop) + " " + second + " - " + body)
+		}
+		for stop := -1; stop < totalPairs; stop++ {
+			second := []string{"iter", "iter2"}[c.Rng.IntN(2)]
+			both("seq 2 iter2 " + st(stop) + " " + second + " - " + body)
+		}
+		// three iterations with arbitrary stops
+		ops := []string{"iter", "iter2"}
+		both(fmt.Sprintf("seq 3 %s %s %s %s %s %s %s", ops[c.Rng.IntN(2)], st(c.Rng.IntN(total+2)-1), ops[c.Rng.IntN(2)], st(c.Rng.IntN(total+2)-1), ops[c.Rng.IntN(2)], st(c.Rng.IntN(total+2)-1), body))
+	}
+	page := func(cur string, k int) string {
+		if k == 0 {
+			return "p" + cur
+		}
+		es := make([]string, k)
+		for x := range es {
+			n++
+			es[x] = hx("s" + strconv.Itoa(n))
+		}
+		return "p" + cur + ":" + strings.Join(es, ",")
+	}
+	// small scope: up to 3 pages of 0..3 elements with distinct cursors, ended by cursor 0, an error, or the end of the script
+	for m := 1; m <= 3; m++ {
+		sizes := make([]int, m)
+		var recS func(i int)
+		recS = func(i int) {
+			if i == m {
+				for _, end := range []string{"zero", "err", "eof"} {
+					var script []string
+					for j, k := range sizes {
+						cur := strconv.Itoa(11 * (j + 1))
+						if j == m-1 && end == "zero" {
+							cur = "0"
+						}
+						script = append(script, page(cur, k))
+					}
+					if end == "err" {
+						script = append(script, "e:boom", page("0", 2))
+					}
+					seqEmit(script)
+				}
+				return
+			}
+			for k := 0; k <= 3; k++ {
+				if m == 3 && c.Tier == "quick" && k == 3 {
+					continue
+				}
+				sizes[i] = k
+				recS(i + 1)
+			}
+		}
+		recS(0)
+	}
+	for i := 0; i < c.N/2; i++ {
+		m := 1 + c.Rng.IntN(6)
+		perm := c.Rng.Perm(1000)
+		var script []string
+		for j := 0; j < m; j++ {
+			cur := strconv.Itoa(1 + perm[j])
+			if j == m-1 && c.Rng.IntN(4) > 0 {
+				cur = "0"
+			}
+			if c.Rng.IntN(10) == 0 {
+				script = append(script, "e:"+[]string{"boom", "timeout"}[c.Rng.IntN(2)])
+				break
+			}
+			script = append(script, page(cur, c.Rng.IntN(7)))
+		}
+		seqEmit(script)
 	}
 }
